@@ -507,7 +507,12 @@ def replay(case):
         kw["plan"] = apply_plan(ir, nm, m, db, span, start, plan_spec, vals or None)
     try:
         with contextlib.redirect_stdout(io.StringIO()):
-            out = m.simulate(db, span, **kw)
+            try:
+                out = m.simulate(db, span, **kw)
+            except Exception:
+                # the damped Newton solver also requires its LAST STEP to be tiny and gives up on exactly linear systems after one
+                # exact step ("cannot make further progress"); its success criterion on the function value is kept
+                out = m.simulate(db, span, solver_settings={"step_tolerance": float("inf"), "func_tolerance": 1e-12}, **kw)
     except Exception as exc:
         return False, f"real solver did not complete ({type(exc).__name__}): the property is conditional on success"
 
